@@ -24,9 +24,6 @@ pub fn __chars_enumerate<'a>(s: &'a str) -> (r: Enumerate<Chars<'a>>) ensures r.
 /// `String::with_capacity(s.len())` (R6 wrapper): an empty string
 #[verifier::external_body]
 pub fn __string_with_capacity(s: &str) -> (r: String) ensures r@ == Seq::<char>::empty() { unimplemented!() }
-#[verifier::external_type_specification]
-#[verifier::external_body]
-pub struct ExParseIntError(std::num::ParseIntError);
 // error payloads (Display / Clone of the pieces; their text is not part of any contract)
 #[verifier::external_body] pub fn __fmt1(c: char) -> String { unimplemented!() }
 #[verifier::external_body] pub fn __fmt2(c: char, c2: char) -> String { unimplemented!() }
